@@ -47,6 +47,9 @@ Definition all_guarded (ms : list member) : bool :=
 
 Inductive notif := NLost (i e : nat) | NClosed.
 
+(* state of the weak reference to the user's DeviceListener *)
+Inductive lkind := LNone | LLive | LDead.          (* no listener set | alive | weakref expired *)
+
 Inductive ev :=
   | Lost (i e : nat)        (* protocol i reports connection_lost(exception e) *)
   | Closed (i : nat)        (* protocol i reports connection_closed() *)
@@ -55,18 +58,35 @@ Inductive ev :=
   | PushStart | PushStop    (* atv.push_updater.start() / .stop() *)
   | PostPlay (i : nat)      (* protocol i's push updater produces a new play status *)
   | PostErr (i : nat)       (* protocol i's push updater reports a play status error *)
-  | RunLoop.                (* the event loop runs everything scheduled so far *)
+  | RunLoop                 (* the event loop runs everything scheduled so far *)
+  | SetListener (l : lkind).  (* the user assigns atv.listener (again): None | a listener that
+                                 stays alive | a listener that is dropped at once *)
 
 (* ndm = number of connected protocols whose close() itself reports connection_closed
    (DMAP does); they speak up when the device object is closed for the first time. *)
-Fixpoint reported (ndm : nat) (closed : bool) (h : list ev) : list notif :=
+(* each report is listed with the state of the listener at that moment (l: the current one) *)
+Fixpoint reported (ndm : nat) (closed : bool) (l : lkind) (h : list ev) : list (notif * lkind) :=
   match h with
   | [] => []
-  | Lost i e :: t => NLost i e :: (if closed then [] else repeat NClosed ndm) ++ reported ndm true t
-  | Closed i :: t => NClosed :: (if closed then [] else repeat NClosed ndm) ++ reported ndm true t
-  | UserClose :: t => (if closed then [] else repeat NClosed ndm) ++ reported ndm true t
-  | _ :: t => reported ndm closed t
+  | Lost i e :: t =>
+      (NLost i e, l) :: (if closed then [] else repeat (NClosed, l) ndm) ++ reported ndm true l t
+  | Closed i :: t =>
+      (NClosed, l) :: (if closed then [] else repeat (NClosed, l) ndm) ++ reported ndm true l t
+  | UserClose :: t => (if closed then [] else repeat (NClosed, l) ndm) ++ reported ndm true l t
+  | SetListener l' :: t => reported ndm closed l' t
+  | _ :: t => reported ndm closed l t
   end.
+
+(* what the user's listener objects may hear over the whole lifetime of the device object: the
+   FIRST report, if a listener was alive at that moment - and never anything else, whichever
+   listener objects are assigned later *)
+Definition heard (r : list (notif * lkind)) : list notif :=
+  match r with
+  | (k, LLive) :: _ => [k]
+  | _ => []
+  end.
+
+Definition is_setl (e : ev) : bool := match e with SetListener _ => true | _ => false end.
 
 Definition is_closing (e : ev) : bool :=
   match e with Lost _ _ | Closed _ | UserClose => true | _ => false end.
